@@ -393,8 +393,12 @@ def _check_pruning(res: Result, proj: Project):
     for label, mk in (("ExactAlgorithmCplexForPaperOptim1", lambda w: w.rt.new(C1, [], {})),
                       ("ExactAlgorithmCplex(optimize=True)", lambda w: w.rt.new(CC, [], {"optimize": True}))):
         outcomes = {}
-        for name, calcs in (("all-below", [0.0, -1.0, -3.0]), ("one-above", [0.0, 0.002, -1.0]), ("all-above", [5.0, 2.0, 1.0]),
-                            ("at-zero", [0.0, 0.0, 0.0])):
+        # (name, before + after - 2 * tied per pair, unit of the costs): the condition is scale-free - the same world
+        # expressed in units of 1e-6 must get the same answer
+        for name, calcs, unit in (("all-below", [0.0, -1.0, -3.0], 1.0), ("one-above", [0.0, 0.002, -1.0], 1.0),
+                                  ("all-above", [5.0, 2.0, 1.0], 1.0), ("at-zero", [0.0, 0.0, 0.0], 1.0),
+                                  ("small-units-one-above", [0.0, 2.0, -1.0], 1e-6),
+                                  ("small-units-all-below", [0.0, -1.0, -3.0], 1e-6)):
             w = ExactWorld(proj, True)
             cube = cost_cube(n)
             k = 0
@@ -402,8 +406,8 @@ def _check_pruning(res: Result, proj: Project):
                 for j in range(i + 1, n):
                     b, a = cube.data[i][j][0], cube.data[i][j][1]
                     t = (b + a - calcs[k]) / 2.0
-                    cube.data[i][j][2] = t
-                    cube.data[j][i][2] = t
+                    cube.data[i][j] = [b * unit, a * unit, t * unit]
+                    cube.data[j][i] = [a * unit, b * unit, t * unit]
                     k += 1
             w.cube = cube
             w.sccs = [[0, 1, 2]]
@@ -426,9 +430,10 @@ def _check_pruning(res: Result, proj: Project):
                 outcomes[name] = "no-ties"
             else:
                 outcomes[name] = f"other ({len(feas)} feasible assignments)"
-        want = {"all-below": "no-ties", "one-above": "ties-allowed", "all-above": "ties-allowed", "at-zero": "no-ties"}
+        want = {"all-below": "no-ties", "one-above": "ties-allowed", "all-above": "ties-allowed", "at-zero": "no-ties",
+                "small-units-one-above": "ties-allowed", "small-units-all-below": "no-ties"}
         res.check(outcomes == want, "X5", f"{label}:no-tie-condition", "corankco/algorithms/exact",
-                  ok_detail="ties are forbidden iff before + after - 2*tied <= threshold for every pair",
+                  ok_detail="ties are forbidden iff before + after <= 2*tied for every pair, whatever the unit of the costs",
                   bad_detail=f"outcomes per cost world {outcomes}, expected {want}")
 
 
